@@ -8,6 +8,7 @@ event handler must be in no cycle at all.  Flow nesting is bounded by a u8 count
 through checked_add with the None case turned into an error.
 """
 from .common import *
+import re
 from engine.facts import is_local, op_const, const_value
 
 PID = "C11"
@@ -143,6 +144,17 @@ def run(tier):
     rep = new_report(tier)
     F = facts.load()
     edges, why = callgraph.build(F)
+    # a forwarding implementation (`impl<R: Trait> Trait for Wrapper<R>` calling the same method on its `inner: R`) is not recursion on the
+    # input: the call goes to a component of the wrapper's own type, so its depth is bounded by the nesting of types fixed at compile time.
+    # Such edges - a trait call whose receiver type is a bare type parameter, from an implementation of that very trait method that is
+    # generic over the parameter - are set aside for cycle detection.
+    for (a_, b_), w_ in list(why.items()):
+        if isinstance(w_, str) and w_.startswith("type-parameter receiver "):
+            pnm = w_.rsplit(" ", 1)[1]
+            fa = F.fns.get(a_)
+            if fa is not None and fa.d.get("impl_trait") and F.fns.get(b_) is not None and F.fns[b_].d.get("impl_trait") == fa.d.get("impl_trait") \
+                    and F.fns[b_].name == fa.name and re.search(r"[<, &]%s[>, ]" % pnm, fa.d.get("impl_self") or ""):
+                edges[a_].discard(b_)
     comps = callgraph.sccs(edges)
     rep.extra["functions_analysed"] = len(F.fns)
     rep.extra["call_edges"] = sum(len(v) for v in edges.values())
